@@ -542,3 +542,70 @@ Section Conjunction.
   Lemma unless_holds_iff u : truthy (VBool (Bool.eqb (truthy u) false)) = negb (truthy u).
   Proof. simpl. destruct (truthy u); reflexivity. Qed.
 End Conjunction.
+
+(* ================================================================================================
+   Section 8: entry points and allowed events (C13)
+   ============================================================================================== *)
+From PySM Require Import Impl.History.
+
+Lemma uniq_in x : forall l seen, In x (uniq seen l) <-> In x l /\ ~ In x seen.
+Proof.
+  induction l as [|y r IH]; intros seen; simpl.
+  - tauto.
+  - destruct (existsb (Nat.eqb y) seen) eqn:E.
+    + rewrite IH. apply existsb_exists in E as (z & Hz & Ez). apply Nat.eqb_eq in Ez. subst z.
+      split; [intros (H1 & H2); tauto|intros ([->|H1] & H2); [contradiction|tauto]].
+    + simpl. rewrite IH. simpl.
+      assert (~ In y seen) as Ny.
+      { intros Hy. assert (existsb (Nat.eqb y) seen = true) as X
+          by (apply existsb_exists; exists y; split; auto; apply Nat.eqb_refl). congruence. }
+      split.
+      * intros [->|(H1 & H2)]; [tauto|]. split; [tauto|]. intros H3. apply H2. now right.
+      * intros ([->|H1] & H2); [now left|]. destruct (Nat.eq_dec y x) as [->|N]; [now left|].
+        right. split; auto. intros [H3|H3]; [congruence|contradiction].
+Qed.
+
+Lemma uniq_nodup : forall l seen, NoDup (uniq seen l).
+Proof.
+  induction l as [|y r IH]; intros seen; simpl; [constructor|].
+  destruct (existsb (Nat.eqb y) seen); [apply IH|].
+  constructor; [|apply IH]. rewrite uniq_in. intros (_ & H). apply H. now left.
+Qed.
+
+(* allowed_events: each event once, and exactly the events bound to some transition leaving the state *)
+Lemma allowed_events_nodup rm s : NoDup (allowed_events rm s).
+Proof. apply uniq_nodup. Qed.
+
+Lemma allowed_events_iff rm s e :
+  In e (allowed_events rm s) <-> exists t, In t (outs rm s) /\ In e (rt_events t).
+Proof.
+  unfold allowed_events. rewrite uniq_in, in_flat_map. simpl. tauto.
+Qed.
+
+Lemma matches_iff t e : matches t e = true <-> In e (rt_events t).
+Proof.
+  unfold matches. rewrite existsb_exists. split.
+  - intros (x & Hx & E). apply Nat.eqb_eq in E. subst. exact Hx.
+  - intros H. exists e. split; auto. apply Nat.eqb_refl.
+Qed.
+
+(* a name that is bound to no transition leaving the current state - in particular any name that is
+   not a declared event - fires nothing, runs no callback and changes nothing *)
+Lemma no_candidate_skips beh nested rm e td : forall cands c,
+  (forall t, In t cands -> matches t e = false) -> Skipped beh nested rm e td cands c c.
+Proof.
+  induction cands as [|t r IH]; intros c H; [constructor|].
+  apply Sk_nomatch; [apply H; now left|]. apply IH. intros t' Ht. apply H. now right.
+Qed.
+
+Lemma unknown_event_touches_nothing beh nested rm e td cands (s : nat) c :
+  (forall t, In t cands -> ~ In e (rt_events t)) ->
+  try_candidates beh nested rm cands e s td c =
+    if rm_allow rm then Ok c (Some no_res) else Exn c (XNotAllowed e s).
+Proof.
+  intros H. apply none_qualifies. apply no_candidate_skips.
+  intros t Ht. destruct (matches t e) eqn:M; auto. apply matches_iff in M. exfalso. eapply H; eauto.
+Qed.
+
+Lemma styles_equal st1 st2 beh rm fuel td c : enter st1 beh rm fuel td c = enter st2 beh rm fuel td c.
+Proof. destruct st1, st2; reflexivity. Qed.
